@@ -266,6 +266,21 @@ def big_history(draw):
     return {'family': family, 'salt': salt, 'ops': ops}
 
 
+@st.composite
+def replay_heavy_history(draw):
+    """Few distinct values re-added so often that the NUMBER OF ADDS passes 2^18 while the distinct count stays small (what the
+    pipeline does: every mini-batch re-adds the distinct values it saw)."""
+    k = draw(st.integers(1000, 6000))
+    rounds = (B // k) + draw(st.integers(2, 8))
+    ops = [['fresh', k], ['probe']]
+    for r in range(rounds):
+        ops.append(['replay', 0, k, draw(st.sampled_from(['asc', 'desc']))])
+        if r % 16 == 15:
+            ops.append(['probe'])
+    ops.append(['probe'])
+    return {'family': draw(st.sampled_from(FAMILIES)), 'salt': draw(st.integers(0, 2 ** 31 - 1)), 'ops': ops}
+
+
 # ---- small histories -----------------------------------------------------------------------------------
 
 def _hexdigest(s):
@@ -331,7 +346,7 @@ def oracle_small(case, rec):
             'small:with-duplicates' if dup else 'small:no-duplicates')
 
 
-ORACLES = {'C14/big-history': oracle_big, 'C14/small-history': oracle_small}
+ORACLES = {'C14/replay-heavy': oracle_big, 'C14/big-history': oracle_big, 'C14/small-history': oracle_small}
 # sub-kinds are raised by both oracles: replay dispatches on the shape of the case
 for _k in ('exact', 'within-2pct', 'duplicate-blind', 'order'):
     ORACLES['C14/' + _k] = lambda case, rec: (oracle_big if 'ops' in case else oracle_small)(case, rec)
@@ -340,6 +355,7 @@ for _k in ('exact', 'within-2pct', 'duplicate-blind', 'order'):
 def run(ctx):
     clauses = [
         Clause('C14/big-history', big_history, oracle_big, quick=64, thorough=1280, quick_shards=16, thorough_shards=16),
+        Clause('C14/replay-heavy', replay_heavy_history, oracle_big, quick=8, thorough=160, quick_shards=8, thorough_shards=16),
         Clause('C14/small-history', small_history, oracle_small, quick=600, thorough=30000, quick_shards=4,
                thorough_shards=16),
     ]
